@@ -99,6 +99,10 @@ def judge(ctx, move, label, S, method, args, valid, expected_end, sig_extra=None
         strict = f"rearrange_strict {zq} {' '.join(nl(l) for l in args)}" if move == "two_col_zone.rearrange" else "true"
         park = (f"(parking_ok {zq}, rearrange_preconditionsb {zq} {' '.join(nl(l) for l in args)})" if move == "two_col_zone.rearrange" else "(true, true)")
         LIB_CASES.append((move, call, f"(Some {paths_coq(evs)})" if st == "ok" else "None", f"{move} {label}", strict, st == "ok", park, valid if pre is None else pre))
+    if move == "waypoints.move_by_waypoints" and label.split(" ")[0] not in ("two", "three"):
+        wl = clist([f"({clist([q(x) for x in g.x_positions])}, {clist([q(y) for y in g.y_positions])})" for g in args[0]])
+        LIB_CASES.append((move, f"waypoints_model {wl} {'true' if args[1] else 'false'} {'true' if args[2] else 'false'}",
+                          f"(Some {paths_coq(evs)})" if st == "ok" else "None", f"{move} {label}", "true", st == "ok", "(true, true)", valid))
     rep = {"move": move, "call": label}
     sig = {"move": move}
     sig.update(sig_extra or {})
@@ -312,6 +316,11 @@ def waypoint_cases(ctx):
                     continue        # no compatible occupancy / nothing to release: outside the quantifier
                 judge(ctx, "waypoints.move_by_waypoints", f"{n} waypoints pick={pick} drop={drop} {[tuple(w.x_positions) + tuple(w.y_positions) for w in wps]}",
                       S, waypoints.move_by_waypoints, (I(wps), pick, drop), valid, end, post=post)
+    # waypoints of different shapes: the move to the other shape is refused (invalid input: rejected or executable)
+    for wps in ([z[0:2, 0:2], z[0:1, 0:2]], [z[0:2, 0:2], z[1:3, 0:2], z[0:2, 0:1]], [z[0:1, 0:1], z[0:2, 0:2]]):
+        for pick, drop in ((True, True), (True, False), (False, False)):
+            judge(ctx, "waypoints.move_by_waypoints", f"{len(wps)} waypoints of different shapes pick={pick} drop={drop} {[tuple(w.x_positions) + tuple(w.y_positions) for w in wps]}",
+                  S, waypoints.move_by_waypoints, (I(wps), pick, drop), False, None)
     # the documented purpose of the flags: a transport split into legs (pick on the first, drop on the last)
     from gen import kernels
     two = kernels.define("@move\ndef two_legs(a, b):\n    move_by_waypoints(a, True, False)\n    move_by_waypoints(b, False, True)\n",
